@@ -325,6 +325,12 @@ func init() {
 			return Slice{St: st, Len: n, Cap: n}
 		},
 
+		"internal/stringslite.Clone": func(e *Exec, c *frame, fn *ssa.Function, a []Value) Value {
+			return e.copyBytes(a[0].(Slice), false)
+		},
+		"strings.Clone": func(e *Exec, c *frame, fn *ssa.Function, a []Value) Value {
+			return e.copyBytes(a[0].(Slice), false)
+		},
 		// ---- strings / strconv ----
 		"strings.TrimSpace": modelTrimSpace,
 		"strconv.Itoa":      modelItoa,
